@@ -10,6 +10,8 @@ type stream = {
 }
 
 let streams : (string * stream) list = [
+  ("C09", { gen = C09.gen; check = C09.check; search = C09.search; describe = C09.describe; tags = C09.tags });
+  ("C10", { gen = C10.gen; check = C10.check; search = C10.search; describe = C10.describe; tags = C10.tags });
   ("C11", { gen = C11.gen; check = C11.check; search = C11.search; describe = C11.describe; tags = (fun _ _ -> []) });
   ("C01", { gen = C01.gen; check = C01.check; search = C01.search; describe = C01.describe; tags = Evalcommon.tags });
   ("C02", { gen = C02.gen; check = C02.check; search = C02.search; describe = C02.describe; tags = Evalcommon.tags });
